@@ -13,6 +13,7 @@ import SkimModel.Driver.C07
 import SkimModel.Driver.C17
 import SkimModel.Driver.C11
 import SkimModel.Driver.C05Cli
+import SkimModel.Driver.C08
 import SkimModel.Driver.C15
 import SkimModel.Driver.C16
 import SkimModel.Driver.C18
@@ -80,6 +81,7 @@ def answer (line : String) : String :=
       | .error e => "error:" ++ e ++ "\terror"
     | "C11" => C11.answer case impl
     | "C05CLI" => C05Cli.answer case impl
+    | "C08" => C08.answer case impl
     | "C15" => C15.answer case impl
     | _ => "error:unknown-property\terror"
   | _ => "error:bad-line\terror"
